@@ -338,6 +338,11 @@ func (prop) Generate(rng *core.Rand, tier string, emit func(string)) {
 			c++
 			continue
 		}
+		if g.rng.Chance(1, 20) {
+			emit(g.icLine())
+			c++
+			continue
+		}
 		rs, hasErrs, errs, named := g.tree(tier)
 		// a few requests per tree: the same routes seen from different hosts/paths/methods
 		for k := 1 + g.rng.Intn(3); k > 0 && c < n; k-- {
@@ -501,6 +506,9 @@ func (prop) Run(line string) (o core.Outcome) {
 	}
 	if len(f) == 4 && f[0] == "ms" {
 		return runMS(line, f)
+	}
+	if len(f) == 4 && f[0] == "ic" {
+		return runIC(line, f)
 	}
 	if len(f) != 3 && len(f) != 4 {
 		return core.Outcome{Impl: "bad-op", Tags: []string{"trivial", "malformed"}}
